@@ -509,6 +509,14 @@ def r25(ctx: Ctx) -> RuleReport:
     for fq, okey in guard_of.items():
         k = f'penman.__main__: the operation behind {okey} ({fq.split(":")[1]}) is applied'
         if fq not in called:
+            # calls inside lambdas / nested helpers / dispatch tables are not in the resolved call list: look for the name itself
+            short = fq.split(':')[1].split('.')[-1]
+            raw = [x for fn in ('_process_in', '_process_out') for x in ast.walk(ctx.repo.func('penman.__main__', fn).node)
+                   if isinstance(x, (ast.Attribute, ast.Name)) and (getattr(x, 'attr', None) == short or getattr(x, 'id', None) == short)]
+            if raw:
+                rep.add(k, ctx.repo.func('penman.__main__', '_process_in').loc(raw[0]), 'info', 'referenced indirectly (table / lambda)')
+                continue
+        if fq not in called:
             rep.violation(k, ctx.repo.func('penman.__main__', '_process_in').loc(), f'no call of {fq.split(":")[1]} is left in _process_in / _process_out: the option is accepted and silently does nothing')
             continue
         f1, call, par = called[fq][0]
@@ -1114,31 +1122,27 @@ def r105(ctx: Ctx) -> RuleReport:
                 binds.append((n, 'expr:' + norm(n.value).replace(' ', '')))
         want = {'amr': lambda k: k == 'import:penman.models.amr', 'noop': lambda k: k == 'import:penman.models.noop',
                 'file': lambda k: k.startswith('expr:Model(') and 'json.load' in k and p_file in k, 'default': lambda k: k == 'expr:Model()'}
+        expected = {'amr': {p_amr: True}, 'noop': {p_amr: False, p_noop: True}, 'file': {p_amr: False, p_noop: False, p_file: True},
+                    'default': {p_amr: False, p_noop: False, p_file: False}}
         seen = set()
         for n, kind in binds:
             fx = fx_of(gm, n)
-            case = None
-            if (p_amr, True) in fx:
-                case = 'amr'
-            elif (p_amr, False) in fx and (p_noop, True) in fx:
-                case = 'noop'
-            elif (p_amr, False) in fx and (p_noop, False) in fx and (p_file, True) in fx:
-                case = 'file'
-            elif (p_amr, False) in fx and (p_noop, False) in fx and (p_file, False) in fx:
-                case = 'default'
+            case = next((c_ for c_ in ('amr', 'noop', 'file', 'default') if want[c_](kind)), None)
             key = f'{gm.fq}: `{norm(n)[:50]}` is chosen in the documented case'
             if case is None:
-                rep.violation(key, gm.loc(n), f'this model is chosen under {sorted(f for f, p in fx if p) or "no condition"} / not {sorted(f for f, p in fx if not p)}: that is none of the four documented cases '
-                              f'(--amr; --noop; --model FILE; none of them), so some option selects the wrong model')
+                rep.undecided(key, gm.loc(n), f'not one of: import of the AMR / no-op model, Model(**json.load(file)), Model()')
                 continue
             seen.add(case)
-            if want[case](kind):
-                rep.ok(key, gm.loc(n), case)
+            contra = [(q, v) for q, v in expected[case].items() if (q, not v) in fx]
+            missing_pos = [q for q, v in expected[case].items() if v and (q, True) not in fx]
+            if contra:
+                rep.violation(key, gm.loc(n), f'this is the model for the case "{case}", but it is bound where {contra[0][0]} is {not contra[0][1]}: an option selects the wrong model')
+            elif missing_pos:
+                rep.violation(key, gm.loc(n), f'this is the model for the case "{case}", but the binding does not depend on `{missing_pos[0]}` being given: it is also chosen without that option')
             else:
-                rep.violation(key, gm.loc(n), f'in the case "{case}" the model is {kind.split(":", 1)[1][:40]}: --{case if case != "file" else "model FILE"} does not select the model it names')
-        for c_ in ('amr', 'noop', 'file', 'default'):
-            if c_ not in seen and binds:
-                rep.violation(f'{gm.fq}: the case "{c_}" has a model', gm.loc(), f'no binding of the returned model is reached exactly in the case "{c_}"')
+                # the negative facts may be established by return / elif structure; absent ones are reported only as undecided
+                lacking = [q for q, v in expected[case].items() if not v and (q, False) not in fx]
+                rep.add(key, gm.loc(n), 'ok' if not lacking else 'undecided', case if not lacking else f'precedence over {lacking} not visible on this path')
         main = ctx.repo.func(M_, 'main')
         for call, ts in ctx.cg.calls_in(main):
             if any(t.kind == 'func' and t.func is gm for t in ts) and len(call.args) >= 3:
@@ -1213,7 +1217,8 @@ def r105(ctx: Ctx) -> RuleReport:
             par = ctx.repo.parent_map(pr.node).get(id(call))
             if not isinstance(par, (ast.Assign, ast.AnnAssign)):
                 rep.violation(f'{pr.fq}: the tree that is formatted is the result of _process_out', pr.loc(call), 'the result of _process_out is dropped: the unprocessed input tree is formatted')
-    if not any(norm(c.func).split('.')[-1] == '_process_out' for c, _ in ctx.cg.calls_in(pr)):
+    from ..resolve import local_callees as _lc2
+    if not any(norm(c.func).split('.')[-1] == '_process_out' for f_ in _lc2(ctx, pr, depth=2) for c, _ in ctx.cg.calls_in(f_)):
         rep.violation(f'{pr.fq}: the tree that is formatted is the result of _process_out', pr.loc(), 'process no longer calls _process_out: the input tree is printed as it was parsed, every normalisation option is ignored')
     # ---- (d) main: every call of process feeds the exit status, in both arms
     main = ctx.repo.func(M_, 'main')
@@ -1233,7 +1238,9 @@ def r105(ctx: Ctx) -> RuleReport:
         else:
             rep.ok(key, main.loc(c))
     if sv and len(pcalls) < 2:
-        rep.add(f'{main.fq}: files and standard input are both processed', main.loc(), 'undecided' if pcalls else 'violation', f'{len(pcalls)} call(s) of process in main')
+        elsewhere = [c for f_ in _lc2(ctx, main, depth=2) if f_ is not main for c, ts in ctx.cg.calls_in(f_) if any(t.kind == 'func' and t.func is pr for t in ts)]
+        if len(pcalls) + len(elsewhere) < 2:
+            rep.undecided(f'{main.fq}: files and standard input are both processed', main.loc(), f'{len(pcalls) + len(elsewhere)} call(s) of process reachable from main')
     return rep
 
 
